@@ -2924,12 +2924,13 @@ def custom_node_items(rng, n) -> List[Item]:
 def c12_programs(rng, tier) -> List[Item]:
     items = corpus_items("C12")
     items += c12_domain_items(rng, sizes(tier, 40, 300))
+    cfg = Cfg(raising=True)
+    items += gen_items(rng, cfg, sizes(tier, 350, 4000), hist_failures)
+    # (directed families added later come after the random stream, which therefore stays what it was)
     items += unmatched_switch_items(rng, sizes(tier, 44, 220))
     import pylib as _pylib
     items += exception_class_items(rng, len(_pylib.EXC) * len(EXC_POSITIONS))     # the full cross product, in both tiers
     items += custom_node_items(rng, sizes(tier, 60, 240))
-    cfg = Cfg(raising=True)
-    items += gen_items(rng, cfg, sizes(tier, 350, 4000), hist_failures)
     return items
 
 
@@ -3358,10 +3359,10 @@ def front_cache_items(rng, n) -> List[Item]:
 def c17_programs(rng, tier) -> List[Item]:
     items = corpus_items("C17")
     items += getonly_items(rng, sizes(tier, 60, 400))
-    items += front_cache_items(rng, sizes(tier, 24, 120))
     items += c17_exhaustive(tier)
     cfg = Cfg(raising=False, scripted_caches=True, all_options=False)
     items += gen_items(rng, cfg, sizes(tier, 200, 3000), hist_faulty)
+    items += front_cache_items(rng, sizes(tier, 24, 120))
     return items
 
 
